@@ -58,6 +58,10 @@ type c02Case struct {
 	TTY bool `json:"tty,omitempty"`
 	// CLI arm only: the edited file is a passphrase-protected identity file given with -i
 	AsIdentity bool `json:"asIdentity,omitempty"`
+	// CLI arm only: the plaintext goes to -o FILE, where FILE already exists and is longer than any result
+	OntoExisting bool `json:"ontoExisting,omitempty"`
+	// Between: another file is decrypted between any two Reads of this one
+	Between bool `json:"between,omitempty"`
 }
 
 var c02FileKey = []byte("0123456789abcdef")
@@ -204,6 +208,34 @@ func c02Check(c c02Case, st *stats.Run, count bool) error {
 			return pbt.Failf("C02/reader-with-error", "Decrypt returned a reader together with an error")
 		}
 		rerr = err
+	} else if c.Between {
+		// between any two Reads another file is decrypted in full (its chunks pass through the same package)
+		of, oplain := c02Base(chunk, c.PlainSeed+500)
+		plan := c.Plan
+		for _, sz := range c.Plan {
+			if sz < 0 {
+				plan = nil
+			}
+		}
+		if len(plan) == 0 {
+			plan = []int{1000}
+		}
+		var hookErr error
+		hooks := 0
+		got, rerr = hx.ReadPlanHook(r, plan, func() {
+			if hooks++; hooks > 100 {
+				return
+			}
+			if g, e, _ := decryptLib(of.Bytes(), hx.Delivery{Mode: "whole"}, []int{-1}, false, p.X25519Identity(0)); e != nil || !bytes.Equal(g, oplain) {
+				hookErr = e
+			}
+		})
+		if rerr == io.EOF {
+			rerr = nil
+		}
+		if hookErr != nil {
+			return pbt.Failf("C02/harness", "the file decrypted in between failed: %v", hookErr)
+		}
 	} else {
 		got, rerr = readAllPlan(r, c.Plan)
 	}
@@ -216,7 +248,7 @@ func c02Check(c c02Case, st *stats.Run, count bool) error {
 	}
 	if count {
 		nontrivial := !bytes.Equal(region, append(append([]byte{}, f.Nonce...), f.Payload...))
-		labels := []string{"edit=" + c.Edit.Kind, chunkLabel(c.PlainLen), released, fmt.Sprintf("spec-accepts=%v", accept), fmt.Sprintf("armored=%v", c.ArmorWrap), "armor-tail=" + c.Tail}
+		labels := []string{"edit=" + c.Edit.Kind, chunkLabel(c.PlainLen), released, fmt.Sprintf("spec-accepts=%v", accept), fmt.Sprintf("armored=%v", c.ArmorWrap), "armor-tail=" + c.Tail, fmt.Sprintf("other-file-between-reads=%v", c.Between)}
 		nontrivial = nontrivial || c.Tail != ""
 		if c.Edit.Kind == "flip" || c.Edit.Kind == "trunc" {
 			o := c.Edit.Off
@@ -232,7 +264,8 @@ func c02Check(c c02Case, st *stats.Run, count bool) error {
 			A bool
 			W int
 			T string
-		}{c.PlainLen, c.PlainSeed, c.Edit, c.ArmorWrap, c.TailWS, c.Tail}), labels...)
+			B bool
+		}{c.PlainLen, c.PlainSeed, c.Edit, c.ArmorWrap, c.TailWS, c.Tail, c.Between}), labels...)
 		if nontrivial {
 			st.Sample("edit="+c.Edit.Kind+"/"+chunkLabel(c.PlainLen), c)
 		}
@@ -548,9 +581,22 @@ func c02CheckCLI(c c02Case, st *stats.Run) error {
 	os.WriteFile(filepath.Join(dir, "key.txt"), []byte(refage.Bech32Encode("AGE-SECRET-KEY-", p.X25519[0])+"\n"), 0o600)
 	st.Case(!accept, stats.HashJSON(c), "cli", "cli:edit="+c.Edit.Kind, chunkLabel(c.PlainLen))
 	st.Sample("cli/"+c.Edit.Kind, c)
-	code, stdout, stderr := runCLI(dir, []string{"PATH=/nonexistent", "HOME=" + dir}, nil, filepath.Join(bin, "age"), "-d", "-i", "key.txt", "in.age")
+	args := []string{"-d", "-i", "key.txt", "in.age"}
+	if c.OntoExisting {
+		os.WriteFile(filepath.Join(dir, "out.dat"), bytes.Repeat([]byte("old content of the output file\n"), 10000), 0o644)
+		args = []string{"-d", "-i", "key.txt", "-o", "out.dat", "in.age"}
+		st.Label("cli:onto-existing-longer-file")
+	}
+	code, stdout, stderr := runCLI(dir, []string{"PATH=/nonexistent", "HOME=" + dir}, nil, filepath.Join(bin, "age"), args...)
 	if code == -2 {
 		return nil
+	}
+	if c.OntoExisting {
+		b, _ := os.ReadFile(filepath.Join(dir, "out.dat"))
+		if accept || !bytes.Equal(b, bytes.Repeat([]byte("old content of the output file\n"), 10000)) {
+			// (a refusal at the header leaves the old file as it was: nothing of it is "released plaintext")
+			stdout = string(b)
+		}
 	}
 	if accept {
 		if code != 0 || stdout != string(wantPlain) {
@@ -771,9 +817,13 @@ func TestC02(t *testing.T) {
 					yield(c02Case{PlainLen: l, PlainSeed: 8, Edit: e})
 				}
 				n++
+				if s.Mine(n) {
+					yield(c02Case{PlainLen: l, PlainSeed: 8, Edit: e, OntoExisting: true})
+				}
+				n++
 			}
 		}
-		s.St.Exhaust("through the age command: 4 plaintext lengths x nonce / first byte / last tag flips, truncations, extensions, chunk swap", int64(n))
+		s.St.Exhaust("through the age command (to standard output, and with -o onto an existing longer file): 4 plaintext lengths x nonce / first byte / last tag flips, truncations, extensions, chunk swap", int64(n))
 		// plaintext shown on a terminal
 		m := 0
 		for _, l := range []int{0, 40, 511, 512, 700, chunk + 100} {
@@ -834,10 +884,28 @@ func TestC02(t *testing.T) {
 				n++
 			}
 		}
+		// plaintexts of whole chunks, read in small pieces while other files are decrypted in between
+		for _, l := range []int{chunk, 2 * chunk} {
+			for _, c := range []c02Case{
+				{Edit: c02Edit{Kind: "none"}, ArmorWrap: true, Tail: "garbage", TailWS: 3},
+				{Edit: c02Edit{Kind: "none"}, ArmorWrap: true, Tail: "second-file"},
+				{Edit: c02Edit{Kind: "extend", Len: 1}},
+				{Edit: c02Edit{Kind: "extend", Len: 1}, ArmorWrap: true},
+				{Edit: c02Edit{Kind: "trunc", Len: 16 + l + 16*chunksOf(l) - 1}},
+				{Edit: c02Edit{Kind: "none"}},
+			} {
+				c.PlainLen, c.PlainSeed, c.Plan, c.Delivery, c.Between = l, 15, []int{1000}, whole, true
+				if s.Mine(n) {
+					yield(c)
+				}
+				n++
+			}
+		}
 		s.St.Exhaust("armored files of 4 lengths: 0..5000 blank bytes after the END line (around the 1024 mark) followed by garbage or by a second armored file; truncated, flipped and extended payloads inside valid armor", int64(n))
 	}, check)
 	pbt.Rapid(s, "edits", s.N(4000, 25000), func(t *rapid.T) c02Case {
 		c := c02Gen(t)
+		c.Between = rapid.IntRange(0, 5).Draw(t, "between") == 0
 		if rapid.IntRange(0, 4).Draw(t, "armorWrap") == 0 {
 			c.ArmorWrap = true
 			if rapid.IntRange(0, 2).Draw(t, "armorTail") == 0 {
